@@ -275,7 +275,8 @@ func (r *Run) Finish() int {
 		"property_id": r.Prop, "tier": r.Tier, "seed": r.Seed, "level": r.Level,
 		"coverage": cov, "assumptions": r.Assumptions, "wall_s": wall, "violations": len(r.viol),
 	}
-	if r.OnlyKey == "" {
+	// evidence is only written for runs against /repo itself (not for mutation-testing copies)
+	if r.OnlyKey == "" && os.Getenv("VERIF_REPO") == "" {
 		b, _ := json.MarshalIndent(ev, "", " ")
 		dir := filepath.Join(VerifDir(), "evidence")
 		os.MkdirAll(dir, 0o755)
